@@ -700,14 +700,19 @@ def main(run):
                 run.axioms.add(m.group(1))
     run.notes["print_assumptions"] = pa
     run.not_proved += [
-        "qft_ok is PROVED for all n >= 1 (qft_ok, qft_ok_complex_matrix: every column of the product matrix circ_mat(QFT n, with swaps) of "
-        "Base/Mat.v is the DFT column; pstep_rules_agree_with_matrices; matrix associativity proved). Remaining outside the static proof: "
-        "the real H / CU1(pi/2^k) / SWAP matrices equal the matrices of to_gapp -- proved per run by TrigMat obligations for k <= 6, compared "
-        "numerically for k = 7..12; the with_swaps=False variant at matrix level for all n is NOT proved (product-state level: "
-        "qft_product_state; operator level: bounded instances n <= 5/6)",
-        "ehrlich_enumerates for all n: NOT proved; proved by vm_compute for every 1 <= k < n <= 10 (bound stated in the theorem)",
-        "unary_tree_ok / hw_encoder_ok / binary_encoder amplitudes for all data: NOT proved (angles are acos/atan2 of data); "
-        "proved: RBS chains act as 2x2 rotations on unary amplitudes, the diagonal chain and the recursive tree loader load x_k/N_0 (ring level, all n, no division: zero blocks included; unary_diagonal_ok_ring, unary_tree_ok_ring); NOT proved: the breadth-first RBS gate list computes the recursive tree form; angle formulas (acos/atan2) satisfy the load equations; both are covered by the data-level tests incl. all 0/1 patterns of length 4 and 8",
+        "qft_ok is PROVED for all n >= 1, both variants (qft_ok, qft_ok_noswap and their complex instances: every column of the product "
+        "matrix circ_mat(QFT n) of Base/Mat.v is the DFT column, bit-reversed output without swaps; pstep_rules_agree_with_matrices; matrix "
+        "associativity proved). Remaining outside the static proof: the real H / CU1(pi/2^k) / SWAP matrices equal the matrices of "
+        "to_gapp -- proved per run by TrigMat obligations for k <= 6, compared numerically for k = 7..12",
+        "ehrlich_enumerates for all n: NOT proved; the LOCAL half is proved for all n and all initial strings (ehrlich_steps_are_transpositions: weight and length preserved, each step exactly one transposition, reported moves correct); the GLOBAL half (no failure, no repetition, hence every weight-k string exactly once) is proved by vm_compute for every 1 <= k < n <= 12 only (bound stated in the theorem)",
+        "unary encoders: PROVED at ring level for all n, no division (zero blocks included): the diagonal ladder (rbs_chain_rotations, "
+        "unary_diagonal_ok_ring) and the BREADTH-FIRST tree gate list of _generate_rbs_pairs (unary_tree_bfs_ok_ring; recursive form "
+        "unary_tree_ok_ring). NOT proved: that the acos/atan2 angle formulas of the real code satisfy the load equations (data-level tests "
+        "incl. all 0/1 patterns of length 4 and 8)",
+        "hw_encoder_ok: PROVED at ring level for every chain of controlled RBS gates satisfying the decidable condition chain_ok "
+        "(hw_chain_ok_loads, all n); the real gate skeleton satisfies chain_ok for 1 <= k < n <= 10, both optimize_controls settings, by "
+        "vm_compute (hw_encoder_ok_bounded). NOT proved: chain_ok for all n (depends on the global structure of the Ehrlich walk), complex data "
+        "(RZ layers), the lexicographic re-ordering of the data, binary_encoder amplitudes (data-level tests)",
     ]
     qft_structure(run, 12)
     qft_instances(run, 6 if thorough else 5)
